@@ -17,7 +17,9 @@ import (
 // Universe of relative paths: plain names, names that are prefixes / concatenations of each
 // other, equal base names in different directories, names with blanks, nested directories.
 var c04Names = func() []string {
-	out := []string{"x", "xy", "y", "x y", "xx", "dir/x", "dirx", "dir/sub/x", "dir/sub/y", "dir2/x", "dir2/sub/x", "a", "ab", "b", "a_b", "dir/ab", "z.txt", "dir/z.txt"}
+	out := []string{"x", "xy", "y", "x y", "xx", "dir/x", "dirx", "dir/sub/x", "dir/sub/y", "dir2/x", "dir2/sub/x", "a", "ab", "b", "a_b", "dir/ab", "z.txt", "dir/z.txt",
+		// names that continue with bytes the content pool starts with (boundary between path and content)
+		"f0", "f", "x0", "x01", "xhello", "dir/x1"}
 	for i := 0; i < 30; i++ {
 		out = append(out, fmt.Sprintf("f%02d", i))
 	}
@@ -25,7 +27,7 @@ var c04Names = func() []string {
 }()
 
 var c04Dirs = []string{"dir", "dir/sub", "dir2", "dir2/sub", "emptydir"}
-var c04Contents = []string{"", "0", "1", "01", "10", "hello\n", "hello"}
+var c04Contents = []string{"", "0", "1", "01", "10", "hello\n", "hello", "00", "001"}
 
 // Edit is one step of a C04 edit script.
 type Edit struct {
@@ -240,6 +242,55 @@ func execDigest(s *ev.Shard, root string, book *digestBook, c DigestCase) *rp.Fa
 				if n == e.Name {
 					order[j] = e.Name2
 				}
+			}
+		case "content_keep_mtime":
+			// a same-size content change whose modification time is put back (cp -p, touch -r,
+			// restored backups): the digest depends on the content, not on file metadata
+			old, ok := files[e.Name]
+			repl, has := map[string]string{"0": "1", "1": "0", "01": "10", "10": "01", "00": "01", "001": "010"}[old]
+			if !ok || !has {
+				continue
+			}
+			p := filepath.Join(root, filepath.FromSlash(e.Name))
+			st, err := os.Stat(p)
+			if err != nil {
+				return &rp.Fail{Sig: "harness", Msg: err.Error()}
+			}
+			files[e.Name] = repl
+			if err := syncTree(root, files); err != nil {
+				return &rp.Fail{Sig: "harness", Msg: err.Error()}
+			}
+			if err := os.Chtimes(p, st.ModTime(), st.ModTime()); err != nil {
+				return &rp.Fail{Sig: "harness", Msg: err.Error()}
+			}
+		case "shift":
+			// move the first byte(s) of the content to the end of the name, when that name is in the universe
+			content, ok := files[e.Name]
+			if !ok || content == "" {
+				continue
+			}
+			moved := false
+			for k := 1; k <= len(content) && !moved; k++ {
+				target := e.Name + content[:k]
+				if _, taken := files[target]; taken {
+					continue
+				}
+				for _, n := range c04Names {
+					if n == target {
+						files[target] = content[k:]
+						delete(files, e.Name)
+						for j, o := range order {
+							if o == e.Name {
+								order[j] = target
+							}
+						}
+						moved = true
+						break
+					}
+				}
+			}
+			if !moved {
+				continue
 			}
 		case "swap":
 			a, okA := files[e.Name]
